@@ -190,7 +190,9 @@ def _case(vals, acc):
 QEMU_FIELDS = [('virtual size', 'virtual_size'), ('disk size', 'disk_size'),
                ('cluster_size', 'cluster_size')]
 QEMU_NUMS = ['0', '1', '64', '1023', '196', '4.4', '1.5', '0.5', '10', '2e+03', '5E+02']
-QEMU_UNITS = ['', 'K', 'M', 'G', 'T', ' KiB', ' MiB', ' GiB', ' TiB', 'KB', 'MB']
+QEMU_UNITS = ['', 'K', 'M', 'G', 'T', ' KiB', ' MiB', ' GiB', ' TiB', 'KB', 'MB',
+              # the same arithmetic as string_to_bytes: bit units are divided by 8
+              ' Kb', 'Kib', ' Mbit', 'Gibit']
 QEMU_TAILS = [None, 'exact', 'odd']
 
 
@@ -204,7 +206,9 @@ def _qemu_case(vals, acc):
     else:
         mag = Fraction(num)
     u = unit.strip()
-    if u:
+    if u and (u.endswith('b') or u.endswith('bit')):
+        exact = math.ceil(mag * 1024 ** EXP[u[0]] / 8)
+    elif u:
         exact = math.ceil(mag * 1024 ** EXP[u[0]])
     else:
         exact = int(mag)
